@@ -5,7 +5,7 @@
 //! a depth limit and a thread count.  The real objects are built, served through the rsync stand-in and
 //! validated by `routinator::engine::Engine` on a fresh cache **in a worker process** (this binary started
 //! with C07_WORKER=1) that the parent watches with a wall clock: no answer within C07_TIMEOUT_MS (default
-//! 20 s) = "no termination observed" (o_res 1), worker died = o_res 2.  After 4 expiries the remaining cases
+//! 45 s) = "no termination observed" (o_res 1), worker died = o_res 2.  After 4 expiries the remaining cases
 //! are not run (o_res 7, never a verdict).
 use std::io::{BufRead, BufReader, Write};
 use std::process::{Child, ChildStdin, Command, Stdio};
@@ -293,7 +293,7 @@ static POOL: Mutex<Vec<Worker>> = Mutex::new(Vec::new());
 static EXPIRIES: AtomicUsize = AtomicUsize::new(0);
 
 fn timeout() -> Duration {
-    Duration::from_millis(std::env::var("C07_TIMEOUT_MS").ok().and_then(|s| s.parse().ok()).unwrap_or(20_000))
+    Duration::from_millis(std::env::var("C07_TIMEOUT_MS").ok().and_then(|s| s.parse().ok()).unwrap_or(45_000))
 }
 
 /// Runs one case in a worker; returns the observation JSON (`res` 1 = watchdog expired, 2 = worker died).
